@@ -72,7 +72,7 @@ Definition ex_ops : list (op Z) :=
     OAddGate 0 (G "X" [7%Z] None PNone false);          (* rejected: out of range *)
     OMergeFn 0; OInverse 1; OConcat 1 2; OAddGate 3 (G "MEASURE" [5%Z] None PNone false);
     OTrim 3; OSplit 3 true; OSimplifyFn 3 100 true ].
-Definition ex_final := final Z Z.add Z.opp (zsmall small_modulus_units) (zeqmod eq_modulus_units)
+Definition ex_final := final Z Z.add Z.opp (zsmall small_modulus_units small_modulus_long_units) (zeqmod eq_modulus_units eq_modulus_long_units)
                              inv_S_units inv_T_units gtables [] ex_ops.
 Example C11_example_nontrivial :
   length ex_final = 7 /\ forallb (metadata_ok Z) ex_final = true
@@ -92,6 +92,6 @@ Qed.
    INPUT circuit gets the summed parameter and the variational flag *)
 Example C11_merge_rotations_asis_mutates_input :
   exists c c1 r, build Z gtables [G "RZ" [0%Z] None (PNum 3%Z) false; G "RZ" [0%Z] None (PNum 5%Z) true] None = Ok c
-    /\ merge_rotations_asis Z Z.add (zeqmod eq_modulus_units) gtables c = Ok (c1, r)
+    /\ merge_rotations_asis Z Z.add (zeqmod eq_modulus_units eq_modulus_long_units) gtables c = Ok (c1, r)
     /\ metadata_ok Z c = true /\ metadata_ok Z c1 = false.
 Proof. do 3 eexists. vm_compute. repeat split. Qed.
